@@ -1,6 +1,8 @@
 package gen
 
 import (
+	"strings"
+
 	"pgregory.net/rapid"
 
 	"verif/harness/world"
@@ -60,6 +62,23 @@ func C10Base(t *rapid.T) *world.Scenario {
 		if base == 3 {
 			continue // the stale-if-error histories bring their own failing validations
 		}
+		if Pct(t, lbl+"-ctxdone", 6) {
+			// the caller's context ends while the origin is answering, and the origin answers
+			// all the same (successfully): that is no failure of the origin call
+			d := Pick(t, lbl+"-ctxlat", int64(1), 2) * Sec
+			st.Req.Uncond.LatencyNs, st.Req.Uncond.IgnoreCtx = d, true
+			if st.Req.Cond != nil {
+				c := *st.Req.Cond
+				c.LatencyNs, c.IgnoreCtx = d, true
+				st.Req.Cond = &c
+			}
+			if Pct(t, lbl+"-ctxkind", 50) {
+				st.Req.CancelNs = d / 2
+			} else {
+				st.Req.DeadlineNs = d / 2
+			}
+			continue
+		}
 		switch Weighted(t, lbl, 60, 10, 10, 10, 10) {
 		case 1:
 			st.Req.Cond = &world.Reply{Kind: "err"}
@@ -71,6 +90,15 @@ func C10Base(t *rapid.T) *world.Scenario {
 			st.Req.Uncond.Body.FailAt = 1 + rapid.IntRange(0, 20).Draw(t, lbl+"-failat")
 			if st.Req.Uncond.Body.Len < 30 {
 				st.Req.Uncond.Body.Len = 30
+			}
+		}
+	}
+	// hosts of every form a Go client can express
+	if Pct(t, "oddhost", 6) {
+		host := Pick(t, "oddhostv", "[fe80::1%25eth0]:8080", "[fe80::1%25eth0]", "[::1]", "A.TEST.", "caf\xe9.test", "127.0.0.1:0")
+		for _, st := range sc.Steps {
+			if st.Op == "req" {
+				st.Req.URL = strings.Replace(st.Req.URL, "a.test", host, 1)
 			}
 		}
 	}
